@@ -148,14 +148,14 @@ func runScript(sc rulebed.Script, mode string) ([]rulebed.Event, error) {
 		defer up.Close()
 	}
 
-	bed, err := rulebed.Start(mode, sc.Default, up)
+	bed, err := rulebed.Start(mode, sc.Default, sc.DefBt, up)
 	if err != nil {
 		return nil, err
 	}
 	defer bed.Stop()
 
 	evs := []rulebed.Event{{
-		Ev: "reset", Trace: sc.Trace, Default: sc.Default, Rules: []rulebed.Rule{}, Caps: [][2]string{}, Mode: mode,
+		Ev: "reset", Trace: sc.Trace, Default: sc.Default, DefBt: sc.DefBt, Rules: []rulebed.Rule{}, Caps: [][2]string{}, Mode: mode,
 	}}
 
 	for _, st := range sc.Steps {
@@ -244,7 +244,7 @@ func replayRules(path, out string) error {
 				up = client.NewUpstream()
 			}
 
-			if bed, err = rulebed.Start(mode, ev.Default, up); err != nil {
+			if bed, err = rulebed.Start(mode, ev.Default, ev.DefBt, up); err != nil {
 				return err
 			}
 
